@@ -29,7 +29,6 @@ CONSTANTS NChunks,      \* chunks 1..NChunks are written in this order
           BigChunks,    \* subset of 1..NChunks with len >= writeBufferSize
           QueueSize,    \* capacity of the job queue (WriteChunk blocks when it is full)
           MaxCuts, MaxTruncs, MaxRestarts,
-          AllowKF,      \* FALSE: Truncate is not allowed to delete every file while a file-cutting job is pending (excludes KF-C25-1)
           EmitMode      \* "all" | "state" | "none"
 
 VARIABLES evSeq, evPos,   \* evtlPos: file sequence and number of chunks assigned in it (0 = offset 0)
@@ -46,7 +45,7 @@ VARIABLES evSeq, evPos,   \* evtlPos: file sequence and number of chunks assigne
           nextC,          \* next chunk to write
           lost,           \* chunks whose file was removed by Truncate
           ncut, ntrunc, nrestart,
-          kf,             \* a cutAndExpectRef mismatch has happened (KF-C25-1): the mapper is broken from then on
+          kf,             \* a cutAndExpectRef mismatch has happened: the mapper would be broken from then on (NoMismatch: never)
           hist
 
 vars == <<evSeq, evPos, cutNext, queue, refMap, wpc, wjob, fileSet, content, flushed, curSeq, buf, ref, nextC, lost,
@@ -155,14 +154,16 @@ CutFile ==
   /\ UNCHANGED <<evSeq, evPos, queue, refMap, wpc, wjob, fileSet, content, flushed, curSeq, buf, ref, nextC, lost, ntrunc, nrestart, kf>>
   /\ Log([a |-> "CutFile"])
 
-\* Truncate(n): files below n and below the current file are unmapped and deleted; a non-empty current
-\* file triggers CutNewFile; when no file is left and the queue is empty the sequence restarts at 0
+\* Truncate(n): files below n and below the current file are unmapped and deleted; while no file is open for
+\* writing (after a restart) the newest file is kept, because a queued job has been promised the sequence that
+\* follows it and cut() names the new file after the files on disk (fix of KF-C25-1); a non-empty current file
+\* triggers CutNewFile; when no file is left and the queue is empty the sequence restarts at 0
 Truncate(n) ==
   /\ ntrunc < MaxTruncs
-  /\ LET rm   == {f \in fileSet : f < n /\ (curSeq = 0 \/ curSeq \notin fileSet \/ f < curSeq)}
+  /\ LET rm0  == {f \in fileSet : f < n /\ (curSeq = 0 \/ curSeq \notin fileSet \/ f < curSeq)}
+         rm   == IF curSeq = 0 /\ rm0 = fileSet THEN rm0 \ {MaxS(fileSet)} ELSE rm0
          keep == fileSet \ rm
-     IN /\ rm # {}                                               \* (a no-op truncation is not interesting)
-        /\ AllowKF \/ ~(keep = {} /\ PendingCut)
+     IN /\ rm0 # {}                                              \* (a no-op truncation is not interesting)
         /\ fileSet' = keep
         /\ lost' = lost \cup {c \in Written : ref[c][1] \in rm}
         /\ cutNext' = (cutNext \/ (curSeq # 0 /\ Len(content[curSeq]) > 0))
@@ -196,8 +197,9 @@ WPop == /\ wpc = "idle" /\ queue # <<>>
         /\ UNCHANGED <<refMap, fileSet, content, flushed, curSeq, buf, kf>> /\ UnchW
         /\ Log([a |-> "WPop", c |-> queue[1].c])
 \* writeChunk: cutAndExpectRef                                  [-> cdm.write.after_cut]
-\* cut() names the new file after the last file on disk; when that is not the sequence promised in the
-\* chunk reference the call fails after the file switch and the chunk is never written (KF-C25-1)
+\* cut() names the new file after the last file on disk; if that were not the sequence promised in the
+\* chunk reference the call would fail after the file switch and the chunk would never be written
+\* (that was KF-C25-1; NoMismatch states that it cannot happen any more)
 WCut == /\ wpc = "popped" /\ wjob.cut
         /\ SetFS(Cut(FS))
         /\ LET okseq == wjob.seq = MaxS(fileSet) + 1 IN
@@ -237,12 +239,8 @@ PositionsAgree == \A f \in fileSet : \A i \in 1..Len(content[f]) : ref[content[f
 \* cutAndExpectRef never fails: the file created by cut() has the sequence promised in the reference
 CutSeqAgrees == (wpc = "popped" /\ wjob.cut) => wjob.seq = MaxS(fileSet) + 1
 
-\* KF-C25-1: after a restart no file is open for writing (curSeq = 0), so Truncate may delete every file
-\* while a queued job still expects to create file lastSeq+1; cut() then creates file 1 instead.
-KF_C25_1_Pre == wpc = "popped" /\ wjob.cut /\ curSeq = 0 /\ wjob.seq > MaxS(fileSet) + 1
-ReadYourWriteKF == ReadYourWrite \/ kf
-PositionsAgreeKF == PositionsAgree \/ kf
-CutSeqAgreesKF == CutSeqAgrees \/ KF_C25_1_Pre \/ kf
+\* the promised and the created file sequence never disagree
+NoMismatch == ~kf
 
 \* chunkRefMap never grows beyond the queue capacity + the job being processed
 RefMapBounded == Cardinality(refMap) <= QueueSize + 1
@@ -250,8 +248,6 @@ RefMapBounded == Cardinality(refMap) <= QueueSize + 1
 \* after a (clean) restart iteration yields exactly the written, not truncated chunks in write order
 IterComplete == (nrestart > 0 /\ refMap = {} /\ wpc = "idle" /\ queue = <<>> /\ curSeq = 0) =>
                   IterOf(FS) = SelectSeq([c \in 1..(nextC - 1) |-> c], LAMBDA c : c \notin lost)
-
-IterCompleteKF == IterComplete \/ kf
 
 \* Truncate(n) removes only files older than n, never the file being written
 TruncateOnlyOlder ==
